@@ -47,6 +47,7 @@ impl Args {
 pub struct Out {
     w: BufWriter<File>,
     pub n: usize,
+    captured: Option<Vec<Value>>,
 }
 
 impl Out {
@@ -55,9 +56,21 @@ impl Out {
             eprintln!("cannot create {path}: {e}");
             std::process::exit(2)
         });
-        Out { w: BufWriter::new(f), n: 0 }
+        Out { w: BufWriter::new(f), n: 0, captured: None }
+    }
+    /// buffer events in memory instead of writing them (see take_captured)
+    pub fn capture(&mut self) {
+        self.captured = Some(Vec::new());
+    }
+    pub fn take_captured(&mut self) -> Vec<Value> {
+        self.captured.take().unwrap_or_default()
     }
     pub fn ev(&mut self, v: Value) {
+        if let Some(c) = self.captured.as_mut() {
+            c.push(v);
+            self.n += 1;
+            return;
+        }
         serde_json::to_writer(&mut self.w, &v).unwrap();
         self.w.write_all(b"\n").unwrap();
         self.n += 1;
